@@ -496,9 +496,11 @@ def _cpp_check(plan: dict, flows: List[Any], violations: List[dict], stats: Dict
         body = re.sub(r"\binit(\d+);", r'cmd("init\1;");', body)
         body = re.sub(r"\biter(\d+);", r'cmd("iter\1;");', body)
         body = re.sub(r"\bc(\d+)\b", r'cond("c\1")', body)
-        body = re.sub(r"(state_ = \d+;)\nreturn;", r"\1\nyielded_ = true;\nreturn;", body)
-        body = re.sub(r"(state_ = \d+;)(\s*// Invalidate state)\n(\s*)return;",
-                      r"\1\n\3yielded_ = true;\n\3return;", body)
+        # the end-of-routine block is no yield; every other "state_ = N; return;" is one
+        body = re.sub(r"(// We invalidate the state since we reached the end of the routine\.\n"
+                      r"\s*state_ = \d+;\n\s*)return;", r"\1goto verif_end;", body)
+        body = re.sub(r"(state_ = \d+;[^\n]*\n\s*)return;", r"\1yielded_ = true; return;", body)
+        body = body.replace("goto verif_end;", "return;")
         src = _CPP_MAIN.replace("%BODY%", body).replace("%CAP%", str(EVENT_CAP))
         wd = os.path.join(kernel.sandbox_base(), f"aascg-cpp-{os.getpid()}")
         os.makedirs(wd, exist_ok=True)
